@@ -1,2 +1,160 @@
-(* C18 (under construction) *)
+(* C18 — parallel constructSurrogate and threaded loadNeededValues: exactly-once, bounded, synchronised, deadlock free.
+
+   Statements only; each is closed by [exact] of a lemma of Proofs/WorkersProofs.v.  All theorems are about
+   [reachable hc cfg L0 n0 s]: the reflexive-transitive closure of the executable [step] of Model/Workers.v from
+   [init cfg L0 n0], for ANY configuration [cfg] (number of workers, batch size, budget), ANY initially loaded samples
+   [L0], ANY initial value [n0] of total_num_launched, ANY interleaving and ANY payloads (model values, candidate lists).
+   [hc = true] restricts the candidate oracle to H-CAND (duplicate-free lists without loaded samples);
+   only c18_at_most_once needs it.
+
+   NOT proved here: termination under a fair scheduler (deadlock freedom is an invariant: some non-spurious step is
+   always enabled), anything about the C++ memory model (the model is the sequentially consistent interleaving of the
+   mutex-protected steps), data-race freedom of the real code (ThreadSanitizer runs in props/C18.py). *)
 From TV Require Import Common.Prelude Model.Workers Proofs.WorkersProofs.
+
+(* ------------------------------------------------------------------------------------------------------------- *)
+(* a point is handed out at most once over the whole run; while it is running it belongs to exactly one worker;
+   a handed-out point is either still a running job of the manager or its sample is stored / loaded (so, by H-CAND,
+   it can never be a free candidate again).  The scenario documented in CandidateManager::complete() (the point is no
+   longer in the candidate list when it completes, so no status entry is set to done) is covered: the sample is in
+   the store and is loaded before the next candidate list is requested. *)
+Theorem c18_at_most_once : forall cfg L0 n0 s,
+  reachable true cfg L0 n0 s ->
+  NoDup (handed s) /\
+  (forall p, In p (handed s) -> In p (rjobs (mgr s)) \/ In p (pts (store s)) \/ In p (pts (loaded s))) /\
+  (forall id w, nth_error (ws s) id = Some w -> wactive w = true ->
+     NoDup (wx w) /\ forall p, In p (wx w) -> In p (rjobs (mgr s)) /\ In p (handed s)) /\
+  (forall i j wi wj, i <> j -> nth_error (ws s) i = Some wi -> nth_error (ws s) j = Some wj ->
+     wactive wi = true -> wactive wj = true -> forall p, In p (wx wi) -> ~ In p (wx wj)).
+Proof. exact at_most_once_stmt. Qed.
+
+(* H-CAND is necessary: if the grid returned an already loaded sample as a candidate the algorithm evaluates it again
+   (after a refresh every status is reset to free; only running_jobs are re-marked). *)
+Theorem c18_at_most_once_needs_hcand :
+  exists cfg L0 n0 s, reachable false cfg L0 n0 s /\ handed s = [1; 1].
+Proof. exact needs_hcand_witness. Qed.
+
+(* ------------------------------------------------------------------------------------------------------------- *)
+(* budget: with the launch loop guarded by total_num_launched < max_num_points (the proposed repair) *)
+Theorem c18_budget : forall hc cfg L0 n0 s,
+  guarded cfg = true -> reachable hc cfg L0 n0 s -> launched s <= Nat.max (maxpts cfg) n0.
+Proof. exact budget_guarded. Qed.
+
+(* as coded (no test in the launch loop): only this weaker bound holds ... *)
+Theorem c18_budget_as_coded_partial : forall hc cfg L0 n0 s,
+  reachable hc cfg L0 n0 s -> launched s <= Nat.max (maxpts cfg) n0 + nj cfg * bsz cfg.
+Proof. exact budget_as_coded. Qed.
+
+(* ... and the documented budget is exceeded: 3 workers, budget 1 *)
+Theorem c18_budget_as_coded_refuted :
+  exists cfg L0 n0 s, guarded cfg = false /\ reachable true cfg L0 n0 s /\ Nat.max (maxpts cfg) n0 < launched s.
+Proof. exact budget_refuted_witness. Qed.
+
+(* ------------------------------------------------------------------------------------------------------------- *)
+(* count_done = number of published flag_done of started workers that the main thread has not collected; inside the
+   main thread's critical section it is 0 and every id below the cursor has been processed *)
+Theorem c18_flag_count_sync : forall hc cfg L0 n0 s,
+  reachable hc cfg L0 n0 s ->
+  (lock_free s = true -> count_done s = count_flag_done (ws s)) /\
+  (lock_free s = false -> count_done s = 0) /\
+  (forall k id w, mpc s = MCollect k -> id < k -> nth_error (ws s) id = Some w -> wflag w <> FDone).
+Proof. exact flag_count_sync. Qed.
+
+(* every stored / loaded sample is the (point, value) pair of a model call made for that very point, and the pair
+   list a worker exposes while its flag is done is what its own model call returned for its own x[id] *)
+Theorem c18_values_at_right_point : forall hc cfg L0 n0 s,
+  reachable hc cfg L0 n0 s ->
+  (forall p v, In (p, v) (store s ++ loaded s) -> In (p, v) L0 \/ exists id, In (id, p, v) (calls s)) /\
+  (forall id w, nth_error (ws s) id = Some w -> wpc w = WPost \/ wflag w = FDone ->
+     length (wy w) = length (wx w) /\ forall p v, In (p, v) (combine (wx w) (wy w)) -> In (id, p, v) (calls s)).
+Proof. exact values_stmt. Qed.
+
+(* while worker [id] is inside the model call its flag is computing and no step of any thread other than its own
+   return changes its record (flag, pc, x[id], y[id]): no second call with that id can start, the main thread does not
+   hand it a new job; the std::thread for an id is created only for a worker that never ran *)
+Theorem c18_no_same_id_concurrency : forall hc cfg L0 n0 s,
+  reachable hc cfg L0 n0 s ->
+  (forall id w, nth_error (ws s) id = Some w -> wpc w = WInModel ->
+     wflag w = FComputing /\
+     forall l s', step hc cfg s l = Some s' -> (exists vals, l = LWExit id vals) \/ nth_error (ws s') id = Some w) /\
+  (forall k w, mpc s = MInit k -> nth_error (ws s) k = Some w -> wpc w = WIdle).
+Proof. exact same_id_stmt. Qed.
+
+(* deadlock freedom as an invariant: unless the run is over, some thread can take a step that is not a spurious
+   wake-up (so progress never depends on spurious wake-ups).  Fair termination is NOT proved. *)
+Theorem c18_no_stuck_state : forall hc cfg L0 n0 s,
+  reachable hc cfg L0 n0 s -> final s = true \/ exists l, spurious l = false /\ step hc cfg s l <> None.
+Proof. exact no_stuck_stmt. Qed.
+
+(* no lost wake-up: a worker parked with a flag other than done has a notify_all pending; the main thread parked
+   with count_done > 0 has a notify_one pending; running jobs imply a computing worker or a published result *)
+Theorem c18_no_lost_wakeup : forall hc cfg L0 n0 s,
+  reachable hc cfg L0 n0 s ->
+  (forall id w, nth_error (ws s) id = Some w -> wpc w = WSleep -> wflag w <> FDone ->
+     (exists k, mpc s = MCollect k) \/ mpc s = MNotify) /\
+  (mpc s = MSleep -> 0 < count_done s -> exists id w, nth_error (ws s) id = Some w /\ wpc w = WNotify) /\
+  (ninit cfg (mpc s) = nj cfg -> lock_free s = true -> 0 < nrun (mgr s) ->
+     0 < count_done s \/ exists id w, nth_error (ws s) id = Some w /\ wflag w = FComputing).
+Proof. exact no_lost_wakeup. Qed.
+
+(* after the main loop every flag is shutdown; at exit every thread that was started has returned *)
+Theorem c18_shutdown_all : forall hc cfg L0 n0 s,
+  reachable hc cfg L0 n0 s ->
+  (mpc s = MFlush \/ mpc s = MJoin \/ mpc s = MExit -> forall id w, nth_error (ws s) id = Some w -> wflag w = FShutdown) /\
+  (mpc s = MExit -> forall id w, nth_error (ws s) id = Some w -> wpc w = WIdle \/ wpc w = WFinished).
+Proof. exact shutdown_all. Qed.
+
+(* loadNeededValues: every sample index is checked out at most once, only valid indices, and when the threads have
+   returned (at least one thread) every index has been checked out: exactly once *)
+Theorem c18_queue_exactly_once : forall n nt q,
+  qreachable n nt q ->
+  NoDup (map snd (qlog q)) /\ (forall i, In i (map snd (qlog q)) -> i < n) /\
+  (0 < nt -> qfinished q = true -> forall i, i < n -> In i (map snd (qlog q))).
+Proof. exact queue_stmt. Qed.
+
+(* ------------------------------------------------------------------------------------------------------------- *)
+(* non-vacuity: a complete run of 2 workers, budget 3, with a refresh, a sleeping main thread woken by notify_one,
+   workers parked and woken by notify_all, reaching the final state *)
+Definition cfg2 : config := mkCfg 2 1 3 true.
+Definition trace_full : list label :=
+  [LStart [1; 2; 3]; LInitJob; LInitJob; LInitEnd;
+   LWEnter 0; LWEnter 1; LWExit 0 [10]; LWDone 0; LWNotify 0; LWLock 0; LMTest; LMLock;
+   LMCollect true [2; 3] []; LMSkip; LMCsExit; LMNotifyAll; LWLock 0;
+   LMTest; LMLock; LWExit 1 [20]; LWDone 1; LWNotify 1; LMLock; LMSkip; LMCollect true [] []; LMCsExit; LMNotifyAll;
+   LWLock 1; LWEnter 0; LWExit 0 [30]; LWDone 0; LWNotify 0; LMTest; LMLock; LMCollect true [] []; LMSkip; LMCsExit;
+   LWLock 0; LMNotifyAll; LMTest; LMFlush; LMJoin].
+
+Example c18_trace_reaches_final :
+  match run true cfg2 (init cfg2 [] 0) trace_full with
+  | Some s => final s = true /\ handed s = [1; 2; 3] /\ launched s = 3 /\ loaded s = [(1, 10); (2, 20); (3, 30)] /\
+              calls s = [(0, 1, 10); (1, 2, 20); (0, 3, 30)]
+  | None => False
+  end.
+Proof. vm_compute. repeat split. Qed.
+
+Example c18_final_state_reachable : exists s, reachable true cfg2 [] 0 s /\ final s = true.
+Proof.
+  destruct (run true cfg2 (init cfg2 [] 0) trace_full) as [s|] eqn:E; [|vm_compute in E; discriminate].
+  exists s. split; [eapply run_reachable; [apply reach_init | exact E]|]. vm_compute in E. inversion E. reflexivity.
+Qed.
+
+(* the queue: 2 threads, 3 samples *)
+Example c18_queue_trace :
+  match qrun (qinit 3 2) [QLCheckout 0; QLCheckout 1; QLModel 1; QLCheckout 1; QLModel 0; QLCheckout 0; QLModel 1; QLCheckout 1] with
+  | Some q => qfinished q = true /\ qlog q = [(0, 0); (1, 1); (1, 2)]
+  | None => False
+  end.
+Proof. vm_compute. split; reflexivity. Qed.
+
+Print Assumptions c18_at_most_once.
+Print Assumptions c18_at_most_once_needs_hcand.
+Print Assumptions c18_budget.
+Print Assumptions c18_budget_as_coded_partial.
+Print Assumptions c18_budget_as_coded_refuted.
+Print Assumptions c18_flag_count_sync.
+Print Assumptions c18_values_at_right_point.
+Print Assumptions c18_no_same_id_concurrency.
+Print Assumptions c18_no_stuck_state.
+Print Assumptions c18_no_lost_wakeup.
+Print Assumptions c18_shutdown_all.
+Print Assumptions c18_queue_exactly_once.
